@@ -15,7 +15,7 @@ class C05(ModelCheck):
     rule = ('case = program containing roll(window, stride) at top level / under group_by / nested in roll or split, all (window, stride) relations, '
             'x seeded interleaving of party scripts (length 0..60+); the window model (item j*s opens window j = items [j*s, j*s+w)) is checked '
             'between the tap in front of roll and the tap at the head of its inner pipeline: items, creation event, close event, close order; '
-            'and the demux from the tail tap to the output. non-trivial: a roll whose parent lifetime saw >= 3 items; distinct = distinct (program, schedule)')
+            'and the demux from the tail tap to the output; window and stride also as numpy integers; thorough tier: an ultra-long single key (70 000-262 147 items) and an ultra-wide stream (70 000 / 270 000 groups under an overlapping roll: slot indices beyond 2**16 and 2**20), compared on the final output. non-trivial: a roll whose parent lifetime saw >= 3 items; distinct = distinct (program, schedule)')
     assumptions = ['interleaving of the *items* of overlapping windows inside one source event is not constrained (text is silent)']
     probe_names = ('window>=257_filled', 'ring_wrapped>=2', 'partial>=2_at_completion', 'stride>window', 'len<window', 'len0', 'nested_roll', 'under_group_by')
 
